@@ -49,8 +49,12 @@ static void add_child_node(struct trie_node *parent, struct trie_node *child, en
 static inline bool is_left_child(const struct lrtr_ip_addr *addr, unsigned int lvl)
 {
 	/* A node must be inserted as left child if bit <lvl> of the IP address
-	 * is 0 otherwise as right child
+	 * is 0 otherwise as right child. A node at depth <address width> holds
+	 * a host prefix and has no children: there is no bit <lvl> to look at.
 	 */
+	if (lvl >= (addr->ver == LRTR_IPV4 ? 32u : 128u))
+		return true;
+
 	return lrtr_ip_addr_is_zero(lrtr_ip_addr_get_bits(addr, lvl, 1));
 }
 
